@@ -373,7 +373,20 @@ def _kind(ctx, abs_, ex, fn: FuncInfo, call: ast.Call):
             elif on == 'Formal':
                 want = 'Extern'
             elif on == 'Signature':
-                want = 'Enum' if fn.qualname == 'check_multiclient_cfg' else 'Extern'
+                # the reply type of the claim event (looked up by check_multiclient_cfg or a helper of it) has to be an enum;
+                # every other reply / parameter type the generator looks up is an extern
+                cmc_ = prog.func('adv_shell.core.processing', 'check_multiclient_cfg')
+                in_cmc = fn is cmc_ or fn.fq in {f_.fq for f_ in ctx.cg.reachable([cmc_])}
+                want = 'Enum' if in_cmc else 'Extern'
+                if in_cmc:
+                    from .shared import dzn_elements_by_interpretation
+                    sem_ = dzn_elements_by_interpretation(ctx)
+                    if sem_ is not None:
+                        bad_ = sem_['C07.kind']
+                        run.add('C07.kind', fn.module.name, fn.qualname, call, not bad_,
+                                'a claim event that replies anything but an enum is refused with MultiClientCfgError (create_dzn_elements interpreted '
+                                'on a claim event replying an extern type, E7)' if not bad_ else '; '.join(bad_[:2]), node=call)
+                        return
         elif 'fqn_encapsulee_name' in t:
             want = 'encapsulee'
     if want is None:
@@ -501,7 +514,15 @@ def _spelling(ctx, abs_, ex):
                         're-resolve it relative to the shell\'s namespace', node=x)
     # the granting reply is composed from the resolved enum's fqn
     cmc = prog.func('adv_shell.core.processing', 'check_multiclient_cfg')
-    for c in iter_own_nodes(cmc.node):
+    from .shared import dzn_elements_by_interpretation
+    sem_de = dzn_elements_by_interpretation(ctx)
+    if sem_de is not None:
+        bad_ = sem_de['C07.spelling']
+        n += 1
+        run.add('C07.spelling', cmc.module.name, cmc.qualname, 'granting reply of the multi-client fixture', not bad_,
+                'granting reply = fully qualified name of the enum the claim event replies (resolved from the interface scope; a same-named enum '
+                'elsewhere is not taken) + the configured value - create_dzn_elements interpreted (E7)' if not bad_ else '; '.join(bad_[:2]))
+    for c in (iter_own_nodes(cmc.node) if sem_de is None else []):
         if isinstance(c, ast.Call) and getattr(c.func, 'id', '') == 'MultiClientPortCfgFixture':
             kw = prog.bind_call(cmc.module, c)
             r = kw.get('claim_granting_reply')
